@@ -509,7 +509,9 @@ pub mod cell {
         }
         pub fn get(&self) -> *mut T {
             let p = self.0.get();
-            super::event("cell_access", p as usize as u64, 0);
+            // a scheduling point, not just an event: a signal handler nested on this very thread
+            // (or another thread) must be placeable immediately before the access
+            super::sched_point("cell_access", p as usize as u64);
             p
         }
         pub fn get_mut(&mut self) -> &mut T {
